@@ -48,20 +48,34 @@ def setup():
 
 
 def replay(prop, path):
+    """Re-runs one recorded case with the worker that found it and shows what it reports."""
     with open(path) as f:
         rec = json.load(f)
-    rp = rec.get("replay", {})
     kind = rec.get("build", "dbg")
+    quarantine = kind == "asan-quarantine"
+    if kind.startswith("asan"):
+        kind = "asan"
     if kind not in ("dbg", "rel", "asan"):
         kind = "dbg"
+    m = CHECKS.get(prop)
+    mod_replay = getattr(sys.modules.get(getattr(m, "__module__", "")), "replay", None)
+    if mod_replay is not None and "engine" not in rec.get("replay", {}):
+        return mod_replay(path)
     binary = build(kind)
-    tmp = os.path.join(common.VERIF, "run", "replay.json")
-    with open(tmp, "w") as f:
-        json.dump(rp, f)
     env = dict(common.ENV_BASE)
     env["ASAN_OPTIONS"] = common.ASAN_OPTIONS
-    p = subprocess.run([binary, "replay", "--file", tmp, "--prop", prop, "--keep-stdout", "1"], env=env, cwd=common.VERIF)
-    return 1 if p.returncode != 0 else 0
+    cmd = [binary, "replay", "--file", path, "--keep-stdout", "1"]
+    if quarantine:
+        cmd += ["--quarantine", "1"]
+    p = subprocess.run(cmd, env=env, cwd=common.VERIF, stdout=subprocess.PIPE, stderr=subprocess.PIPE, text=True, errors="replace")
+    sys.stdout.write(p.stdout[-20000:])
+    sys.stderr.write(p.stderr[-6000:])
+    failed = p.returncode != 0 or any(line.startswith("F ") for line in p.stdout.splitlines())
+    if failed:
+        print(f"VIOLATION property={prop} replay={path}")
+        return 1
+    print(f"replay of {path}: the recorded case no longer fails")
+    return 0
 
 
 # ---------------------------------------------------------------------------
@@ -95,7 +109,46 @@ def c05(tier, seed):
                 "array-profile programs: copies through assignment, element store, argument and return, then push/pop/reverse/indexed writes at depth <= 2 inside loops and callees, with every array variable in scope printed after every mutation; compared with a value-semantics reference interpreter; non-trivial = an array variable was copied and a mutation happened afterwards; distinct = hash of the source text")
 
 
+def c02(tier, seed):
+    res = common.Result()
+    dbg = build("dbg")
+    asan = build("asan")
+    if tier == "quick":
+        res.absorb(run_engine(dbg, "reclaim", n(60000), seed, {"mode": "diff"}, build_name="dbg"))
+        res.absorb(run_engine(asan, "reclaim", n(6000), seed + 1, {"mode": "asan"}, build_name="asan"))
+        res.absorb(run_engine(asan, "reclaim", n(6000), seed + 2, {"mode": "asan", "quarantine": 1}, build_name="asan-quarantine"))
+    else:
+        res.absorb(run_engine(dbg, "reclaim", n(1000000), seed, {"mode": "diff"}, build_name="dbg"))
+        res.absorb(run_engine(asan, "reclaim", n(200000), seed + 1, {"mode": "asan"}, build_name="asan"))
+        res.absorb(run_engine(asan, "reclaim", n(200000), seed + 2, {"mode": "asan", "quarantine": 1}, build_name="asan-quarantine"))
+    triage(res)
+    return finish("C02", tier, seed, "exploration", res,
+                  "mem-biased generated programs (run-time strings with lengths straddling the pool size classes, stored/overwritten in loops, passed, returned, captured; arrays of strings crossing frame resets) executed three ways: (a) debug build, reclamation on vs off on the same AST, outputs and ending compared bytewise (freed memory is filled with 0xDD/0xCD there); (b) AddressSanitizer build in which the arena and pool hooks poison every byte that is not handed out, so a read or write of reclaimed memory traps at the instruction; (c) as (b) with quarantine: reclaimed memory is never re-issued, which also catches free -> re-issue -> stale read. Non-trivial = at least one frame reset, one pool slot returned and (outside quarantine) one slot re-issued from the free list in a program that builds strings at run time; distinct = hash of the source text",
+                  ["both sides of (a) are the same interpreter, so the oracle needs no model; the model is only used to discard non-terminating or oversized programs",
+                   "std is not instrumented in the ASan build (no build-std): a stale read that happens only inside precompiled core::fmt is seen through the intercepted memcpy/memcmp or by (a)",
+                   "ASAN_OPTIONS=detect_stack_use_after_return=0 (the interpreter's own stack probe needs real stack addresses), detect_leaks=0 (arenas never free)",
+                   "runs ending in the interpreter's Stack overflow error are not compared (the off mode uses more memory per frame)"],
+                  min_nontrivial=50)
+
+
+def c03(tier, seed):
+    res = common.Result()
+    if tier == "quick":
+        res.absorb(run_engine(build("dbg"), "prune", n(60000), seed, {}, build_name="dbg"))
+    else:
+        res.absorb(run_engine(build("rel"), "prune", n(1500000), seed, {}, build_name="rel"))
+        res.absorb(run_engine(build("dbg"), "prune", n(150000), seed + 7, {}, build_name="dbg"))
+    triage(res)
+    return finish("C03", tier, seed, "exploration", res,
+                  "dead-biased generated programs (dead stores, unused variables, code after return/comot/next, functions called only from dead code, callees that read or conditionally write captured variables, recursion, failing operations) executed with the optimisation plan and without it on the same AST and facts; printed values and ending compared; in the unpruned run every executed statement id (hook) must be marked reachable by analysis::reachability. Non-trivial = the plan is non-empty, at least one statement was actually skipped at run time and the program printed something; distinct = hash of the source text",
+                  ["same interpreter twice; the model is only used to discard non-terminating programs",
+                   "runs ending in the interpreter's Stack overflow error are not compared (as the property says)"],
+                  min_nontrivial=50)
+
+
 CHECKS = {
+    "C02": c02,
+    "C03": c03,
     "C01": c01,
     "C04": c04,
     "C05": c05,
